@@ -321,18 +321,19 @@ def server_case(ctx, desc, declared, keyblob, sign, expect_name, disabled, kex, 
             return
         a.takeover()
         a.send(5, "ssh-userauth")
-        if a.wait_inbox(lambda e: e["type"] == 6, 30) is None:
+        pair.wait_for(lambda: a.wait_inbox(lambda e: e["type"] == 6, 0) or not a.victim.is_active(), 30)
+        if a.wait_inbox(lambda e: e["type"] == 6, 0) is None:
             ctx.inconclusive("no SERVICE_ACCEPT for the scripted client: %r" % desc)
             return
         user = "u"
         if shape == "after-failure":
             mark = a.inbox_mark()
             a.send(50, user, "ssh-connection", "password", False, "wrong")
-            a.wait_inbox(lambda e: e["type"] == 51, 30, mark)
+            pair.wait_for(lambda: a.wait_inbox(lambda e: e["type"] == 51, 0, mark) or not a.victim.is_active(), 30)
         elif shape == "query-first":
             mark = a.inbox_mark()
             a.send(50, user, "ssh-connection", "publickey", False, declared, keyblob)
-            a.wait_inbox(lambda e: e["type"] in (60, 51), 30, mark)
+            pair.wait_for(lambda: a.wait_inbox(lambda e: e["type"] in (60, 51), 0, mark) or not a.victim.is_active(), 30)
         sid = a.att.session_id
         tosign = s(sid) + b"\x32" + s(user) + s("ssh-connection") + s("publickey") + b"\x01" + s(declared) + s(keyblob)
         sig = sign(tosign)
